@@ -415,7 +415,16 @@ def run_partB(order, variant):
                 impl.event('CIRC', M.circ_line(2, 'BUILT', 3))
             impl.sim.pump()
         impl.sim.pump()
+        # later, an unrelated client connection re-uses the local address and port connection 1 had
+        if 'N1' in order:
+            log.append('R (source port of connection 1 re-used by an unrelated stream)')
+            impl.sim.event('STREAM 21 NEW 0 later.example:80 SOURCE_ADDR=127.0.0.1:%d PURPOSE=USER' % ports[1])
+            impl.sim.pump()
         attach = [c for c in impl.sim.commands if c.startswith('ATTACHSTREAM')]
+        reuse = [c for c in attach if c.split()[1] == '21']
+        if 'N1' in order and reuse != ['ATTACHSTREAM 21 0']:
+            viol.append(('unrelated-stream', 'source-port-reused-later/' + ('captured' if any(c.split()[2] != '0' for c in reuse) else 'no-decision'),
+                         'order %r: a later stream from 127.0.0.1:%d got decisions %r' % (order, ports[1], reuse)))
         closed1 = 'X' in order
         for k in (1, 2):
             mine = [c for c in attach if c.split()[1] == str(sid[k])]
